@@ -88,4 +88,8 @@ def run (m : M) : List Op → M × List Out
   | [] => (m, [])
   | op :: ops => let (m', o) := step m op; let (m'', os) := run m' ops; (m'', o :: os)
 
+/-- copying a multimap: a fresh multimap holding the same (name, value) pairs, added in order
+    (a continuation line after the copy therefore folds into the last pair) -/
+def copy (m : M) : M := (getAll m).foldl (fun a p => addRaw a p.1 p.2) empty
+
 end TornadoModel.C06.Spec
